@@ -20,13 +20,14 @@ def index():
     return res
 
 
-def cargo_test(tests, scratch, timeout=1500):
+def cargo_test(tests, scratch, timeout=1500, extra_env=None):
     """run the named replay tests of the real crate (hooks on); returns {test: (passed, log)}"""
     env = dict(os.environ)
     env["RUST_BACKTRACE"] = "0"
     env["CARGO_TARGET_DIR"] = os.path.join(scratch, "target")
     env["CARGO_NET_OFFLINE"] = "true"
     env["VERIF_DIR"] = VERIF
+    env.update(extra_env or {})
     res = {}
     for t in tests:
         cmd = ["cargo", "test", "--offline", "--lib", "--features", FEATURES, t, "--", "--exact", "--nocapture", "--test-threads", "1"]
@@ -48,12 +49,12 @@ def cargo_test(tests, scratch, timeout=1500):
     return res
 
 
-def run_for(obligation, scratch):
+def run_for(obligation, scratch, extra_env=None):
     idx = index()
     ent = idx.get(obligation)
     if not ent:
         return {"reproduced": False, "log": "no replay template for obligation %s" % obligation}
-    r = cargo_test([ent["test"]], scratch)
+    r = cargo_test([ent["test"]], scratch, extra_env=extra_env)
     ok, log = r[ent["test"]]
     if ok is False:
         return {"reproduced": True, "log": "replay test %s FAILS on the real code:\n%s" % (ent["test"], log), "test": ent["test"]}
